@@ -518,3 +518,47 @@ def config_fields() -> str:
 
 def common_mod():
     return common
+
+
+KERNEL_GROUPS = {
+    # generated file -> [(module, python name, Coq name, type of self)]; one file per group so that an untranslatable edit in
+    # one kernel breaks only the obligations of the properties that rest on it
+    'KernelsFrame': [
+        ('utils.py', 'get_codon_offset_complement', 'k_codon_offset_complement', None),
+        ('utils.py', 'get_cds_ext_3_length', 'k_cds_ext_3_length', None),
+        ('utils.py', 'clamp_non_negative', 'k_clamp_non_negative', None),
+        ('utils.py', 'get_end', 'k_get_end', None),
+        ('exon.py', 'Exon.compl_frame', 'k_exon_compl_frame', 'exon'),
+        ('exon.py', 'Exon.cds_prefix_length', 'k_exon_cds_prefix_length', 'exon'),
+        ('exon.py', 'Exon.cds_suffix_length', 'k_exon_cds_suffix_length', 'exon'),
+        ('exon.py', 'Exon.next_exon_frame', 'k_exon_next_exon_frame', 'exon'),
+        ('exon.py', 'Exon.get_first_codon_start', 'k_exon_first_codon_start', 'exon'),
+        ('exon.py', 'Exon.get_codon_index_at', 'k_exon_codon_index_at', 'exon'),
+        ('exon.py', 'get_codon_range', 'k_get_codon_range', None),
+        ('transcript.py', 'get_range_cds_exts', 'k_get_range_cds_exts', None),
+    ],
+    'KernelsPattern': [
+        ('int_pattern_builder.py', 'IntPatternBuilder.build', 'k_pattern_build', 'pt'),
+        ('uint_range.py', 'UIntRange.from_length', 'k_range_from_length', 'range'),
+    ],
+    'KernelsAnnot': [
+        ('annot_variant.py', 'get_codon_range_offset', 'k_codon_range_offset', None),
+    ],
+}
+
+
+def _kernel_extractor(name):
+    def f() -> str:
+        from . import pytrans
+        targets = KERNEL_GROUPS[name]
+        sources = {m: _src(m) for m in sorted({t[0] for t in targets})}
+        body = pytrans.translate(sources, targets)
+        pre = '(* IntPatternBuilder(offset, span) *)\nRecord pt := mkPt { pt_offset : Z; pt_span : Z }.\n\n' if name == 'KernelsPattern' else ''
+        return ('(* translated from the source by harness/pytrans.py *)\nFrom VV Require Import Model.Base Model.Pattern Model.Transcript.\n'
+                'Definition fact_extracted : bool := true.\n' + pre + body)
+    f.__doc__ = 'Pure arithmetic kernels translated from the source by harness/pytrans.py (fail closed).'
+    return f
+
+
+for _name in KERNEL_GROUPS:
+    EXTRACTORS[_name] = _kernel_extractor(_name)
